@@ -71,6 +71,7 @@ def run(ctx, rep):
         C09.handler_tables(F, rep)
         C09.returns(F, rep)
         C09.interpreter_loop(F, rep)
+        C09.children_code_is_not_edited(F, rep)
     finally:
         C09.P = old
     parameters(F, rep)
